@@ -1,6 +1,7 @@
 package main
 
 import (
+	"go/constant"
 	"go/token"
 	"go/types"
 	"strings"
@@ -1559,6 +1560,14 @@ func hrTreeRebuiltOnlyWhenNewer(w *World, r *Report, rule string) {
 		}
 		op, _ = FindRel(Rels(cs[0].Block()), isNew, isCur)
 		ok = op == ">"
+		if op == "" { // the same test written with time.Time's own comparison
+			for _, cd := range CondsOf(cs[0].Block()) {
+				p := Path(cd.V)
+				if cd.Pol && strings.HasPrefix(p, "(time.Time).After(common.GetPoliciesLastModifiedTime()#0") {
+					ok, op = true, "After"
+				}
+			}
+		}
 	}
 	r.Check(ok, rule, "periodicallyUpdateTree/rebuild-only-when-strictly-newer", f.Pos(), "BuildTree runs under newLastModified %q currentLastModified (want >): an untouched policies file keeps the tree and the path parameters it converged", op)
 }
@@ -1795,6 +1804,9 @@ func hrNoSessionSentinel(w *World, r *Report, rule string) {
 		if _, isK := constInt(rel.R); !isK {
 			continue
 		}
+		if col := w.constOf(pkgFailsafe, "lastSessionColName"); col == nil || !strings.Contains(Path(ex), constant.StringVal(col)) {
+			continue // another column
+		}
 		n++
 		if !((rel.Op == "==" || rel.Op == "!=") && isIntConst(rel.R, -1)) {
 			ok = false
@@ -1819,4 +1831,767 @@ func hrRevertUnmanageFlags(w *World, r *Report, rule string) {
 		}
 		r.Check(ok, rule, name+"/unmanage-immediately-flag", f.Pos(), "%s calls UpdatePoliciesData(..., %v): the fail-safe reverts take stale endpoints out of the proxy at once, an ordinary reload after the grace period", name, want)
 	}
+}
+
+// ---------------------------------------------------------------------------
+// part 7: ninth wave (small clean-ups of supporting functions, with a slip)
+
+// hrConcurrentAllowed: a concurrent quota with a parent answers with its own admission first and
+// then with the parent's verdict (never "true" past a parent, never the parent without its own check).
+func hrConcurrentAllowed(w *World, r *Report, rule string) {
+	f := w.Fn(pkgQuota, "concurrentStrategy.Allowed")
+	if f == nil {
+		r.Undec(rule, "concurrentStrategy.Allowed", token.NoPos, "function not found")
+		return
+	}
+	okTrue, okParent, nParent, nTrue := true, true, 0, 0
+	for _, alt := range ReturnAlts(f, 0) {
+		own := condsHave(alt.Conds, true, func(v ssa.Value) bool { return isCallTo0(v, "concurrentStrategy).checkReqStatus") })
+		if b, isB := constBool(alt.Val); isB {
+			if !b {
+				continue
+			}
+			nTrue++
+			op, _ := FindRel(relsOfConds(alt.Conds), func(v ssa.Value) bool { return strings.HasSuffix(Path(v), "cs.parent") }, isNilConst)
+			if op != "==" || !own {
+				okTrue = false
+			}
+			continue
+		}
+		// the parent's own verdict
+		if Derives(alt.Val, func(x ssa.Value) bool { return isCallTo0(x, "QuotaResourceI).Allowed", "ResourceAdmI).Allowed") }) {
+			nParent++
+			if !own {
+				okParent = false
+			}
+		}
+	}
+	r.Check(okTrue && nTrue >= 1, rule, "concurrentStrategy.Allowed/true-only-without-a-parent", f.Pos(), "`true` is returned only when the own check passed and there is no parent (with a parent its verdict is the answer) (%d returns)", nTrue)
+	r.Check(okParent && nParent >= 1, rule, "concurrentStrategy.Allowed/parent-asked-after-own-check", f.Pos(), "the parent's verdict is returned, and only after the own admission check passed (%d returns)", nParent)
+}
+
+// hrChildStrategyKeepsParent: every child strategy is built with the parent node it hangs under.
+func hrChildStrategyKeepsParent(w *World, r *Report, rule string) {
+	f := w.Fn(pkgQuota, "UsedStrategy.CreateChildStrategy")
+	if f == nil {
+		r.Undec(rule, "CreateChildStrategy", token.NoPos, "function not found")
+		return
+	}
+	// the strategies that keep a link to their parent: their constructor reads its parent parameter
+	var need []string
+	for _, cn := range []string{"NewFixedStrategy", "NewConcurrentStrategy", "NewHeaderBasedStrategy"} {
+		c := w.Fn(pkgQuota, cn)
+		if c == nil {
+			r.Undec(rule, cn, token.NoPos, "constructor not found")
+			continue
+		}
+		last := c.Params[len(c.Params)-1]
+		if last.Referrers() != nil && len(*last.Referrers()) > 0 {
+			need = append(need, cn)
+		}
+	}
+	var miss []string
+	for _, cn := range need {
+		cs := CallsIn(f, false, "quota."+cn)
+		ok := len(cs) >= 1
+		for _, c := range cs {
+			a := c.Common().Args
+			if Path(a[len(a)-1]) != "param:parent" {
+				ok = false
+			}
+		}
+		if !ok {
+			miss = append(miss, cn)
+		}
+	}
+	r.Check(len(miss) == 0 && len(need) >= 2, rule, "CreateChildStrategy/every-kind-built-under-its-parent", f.Pos(), "each strategy whose constructor uses its parent (%v) is constructed here with `parent` (not so: %v)", need, miss)
+}
+
+// hrOnErrorRecords: every status the proxy generates by itself is recorded as a failed transaction.
+func hrOnErrorRecords(w *World, r *Report, rule string) {
+	f := w.Fn(pkgSDisc, "OnError.RecordErrorTransactionIfNeeds")
+	if f == nil {
+		r.Undec(rule, "RecordErrorTransactionIfNeeds", token.NoPos, "function not found")
+		return
+	}
+	n, ok := 0, true
+	var why []string
+	Instrs(f, func(in ssa.Instruction) {
+		mu, isMU := in.(*ssa.MapUpdate)
+		if !isMU || !strings.HasSuffix(Path(mu.Map), ".FailedTransactions") {
+			return
+		}
+		n++
+		eq := false
+		for _, cd := range CondsOf(mu.Block()) {
+			rel, isRel := NormCond(cd)
+			if !isRel {
+				ok = false
+				why = append(why, condsString([]Cond{cd}))
+				continue
+			}
+			l, rr := Path(rel.L), Path(rel.R)
+			switch {
+			case rel.Op == "==" && (l == "param:statusCode" && strings.Contains(rr, "HaproxyInternalErrors[") || rr == "param:statusCode" && strings.Contains(l, "HaproxyInternalErrors[")):
+				eq = true
+			case rel.Op == "<" && strings.HasPrefix(rr, "builtin.len(") && strings.HasSuffix(rr, "HaproxyInternalErrors)"):
+				// index within the whole list (range loop or a search result)
+			default:
+				ok = false
+				why = append(why, relsString([]Rel{rel}))
+			}
+		}
+		if !eq {
+			ok = false
+		}
+	})
+	r.Check(ok && n == 1, rule, "RecordErrorTransactionIfNeeds/any-listed-status", f.Pos(), "the transaction is recorded exactly when statusCode equals an element of HaproxyInternalErrors, every index of the list being eligible (other conditions: %v)", why)
+}
+
+// hrToComparable: the key under which filters are told apart takes every field from its own source.
+func hrToComparable(w *World, r *Report, rule string) {
+	f := w.Fn(pkgSCfg, "Filter.ToComparable")
+	if f == nil {
+		r.Undec(rule, "Filter.ToComparable", token.NoPos, "function not found")
+		return
+	}
+	fields := map[string]string{"URL": "URL", "QueryParams": "QueryParams", "Method": "Method", "Headers": "Headers", "StatusCode": "StatusCode"}
+	n := 0
+	for _, alt := range ReturnAlts(f, 0) {
+		n++
+		for dst, src := range fields {
+			v := litField(alt.Val, dst)
+			ok := v != nil
+			var from []string
+			if ok {
+				Derives(v, func(x ssa.Value) bool {
+					if tf := typedField(x); strings.HasPrefix(tf, "Filter.") {
+						from = append(from, strings.TrimPrefix(tf, "Filter."))
+					}
+					return false
+				})
+				ok = len(from) >= 1
+				for _, s := range from {
+					if s != src {
+						ok = false
+					}
+				}
+			}
+			r.Check(ok, rule, "Filter.ToComparable/"+dst, posOf(alt.Ret), "ComparableFilter.%s is built from Filter.%s only (from %v): two filters that differ in one field never compare equal", dst, src, from)
+		}
+	}
+	if n != 1 {
+		r.Undec(rule, "Filter.ToComparable/shape", f.Pos(), "expected one return, found %d", n)
+	}
+}
+
+// stringListOf: the string constants of a list value: a slice literal, a clone of one, or a
+// package variable initialised with one.
+func stringListOf(w *World, v ssa.Value, depth int) map[string]bool {
+	out := map[string]bool{}
+	if depth > 4 || v == nil {
+		return out
+	}
+	v = peel(unhelp(v))
+	switch x := v.(type) {
+	case *ssa.Slice:
+		for _, st := range partStores(x.X, 2) {
+			if s, isS := constString(st.Val); isS {
+				out[s] = true
+			}
+		}
+	case *ssa.Call:
+		if isCallTo(x, "slices.Clone") && len(x.Call.Args) == 1 {
+			return stringListOf(w, x.Call.Args[0], depth+1)
+		}
+		if b, isB := x.Call.Value.(*ssa.Builtin); isB && b.Name() == "append" {
+			for _, a := range x.Call.Args {
+				for s := range stringListOf(w, a, depth+1) {
+					out[s] = true
+				}
+			}
+		}
+	case *ssa.UnOp:
+		if g, isG := x.X.(*ssa.Global); isG && x.Op == token.MUL && g.Pkg != nil {
+			if ini := g.Pkg.Func("init"); ini != nil {
+				for _, b := range ini.Blocks {
+					for _, in := range b.Instrs {
+						if st, isSt := in.(*ssa.Store); isSt && st.Addr == ssa.Value(g) {
+							for s := range stringListOf(w, st.Val, depth+1) {
+								out[s] = true
+							}
+						}
+					}
+				}
+			}
+		}
+	case *ssa.Phi:
+		for _, e := range x.Edges {
+			for s := range stringListOf(w, e, depth+1) {
+				out[s] = true
+			}
+		}
+	}
+	return out
+}
+
+// defaultMethodsOf: the methods a filter without a method list stands for.
+func defaultMethodsOf(w *World) (map[string]bool, *ssa.Function) {
+	gs := w.Fn(pkgSCfg, "Filter.GetSupportedMethods")
+	if gs == nil {
+		return nil, nil
+	}
+	out := map[string]bool{}
+	for _, alt := range ReturnAlts(gs, 0) {
+		if strings.HasSuffix(Path(alt.Val), ".Method") {
+			continue // the configured list
+		}
+		for s := range stringListOf(w, alt.Val, 0) {
+			out[s] = true
+		}
+	}
+	return out, gs
+}
+
+// hrDefaultMethods: a filter that names no method stands for at least the five methods it always stood for.
+func hrDefaultMethods(w *World, r *Report, rule string) {
+	def, gs := defaultMethodsOf(w)
+	if gs == nil {
+		r.Undec(rule, "Filter.GetSupportedMethods", token.NoPos, "function not found")
+		return
+	}
+	var miss []string
+	for _, m := range []string{"GET", "POST", "PUT", "DELETE", "PATCH"} {
+		if !def[m] {
+			miss = append(miss, m)
+		}
+	}
+	r.Check(len(miss) == 0, rule, "Filter.GetSupportedMethods/default-covers-the-five-methods", gs.Pos(), "a filter without a method list stands for GET, POST, PUT, DELETE and PATCH (missing %v, found %v)", miss, keysOf(def))
+}
+
+// hrResumeNodeIsPerFlow: on the response leg only the flow that answered the request resumes after
+// that node; the node is decided per flow, not carried over from the previous one.
+func hrResumeNodeIsPerFlow(w *World, r *Report, rule string) {
+	f := w.Fn(pkgStreams, "Stream.executeRes")
+	if f == nil {
+		r.Undec(rule, "executeRes", token.NoPos, "function not found")
+		return
+	}
+	ok, n := true, 0
+	isNode := func(v ssa.Value) bool { return strings.HasSuffix(Path(v), "shortCircuit.node") }
+	for _, c := range CallsIn(f, false, "Stream).executeFlow") {
+		inLoop := false
+		for _, h := range loopHeadersOf(f) {
+			if loopHas(h, c.Block()) {
+				inLoop = true
+			}
+		}
+		if !inLoop {
+			continue
+		}
+		a := margs(c)
+		start := a[len(a)-1]
+		switch x := start.(type) {
+		case *ssa.Phi:
+			n++
+			for _, e := range x.Edges {
+				if !isNilConst(e) && !isNode(e) {
+					ok = false
+				}
+			}
+			for _, h := range loopHeadersOf(f) {
+				if x.Block() == h {
+					ok = false // carried around the loop
+				}
+			}
+		default:
+			if isNilConst(start) {
+				n++
+			} else if isNode(start) {
+				n++
+				op, _ := FindRel(Rels(c.Block()), func(v ssa.Value) bool { return strings.HasSuffix(Path(v), "shortCircuit") }, isNilConst)
+				if op != "!=" {
+					ok = false
+				}
+			} else if strings.Contains(Path(start), "shortCircuit") || strings.Contains(Path(start), "phi[") {
+				n++
+				ok = false
+			}
+		}
+	}
+	r.Check(ok && n >= 1, rule, "executeRes/resume-node-decided-per-flow", f.Pos(), "inside the loop over the matched flows executeFlow starts from shortCircuit.node for the answering flow and from nil for every other, decided within the iteration (%d calls)", n)
+}
+
+// hrFoundIsMonotone: GetFlow reports "found" when any node on the way has a valid flow.
+func hrFoundIsMonotone(w *World, r *Report, rule string) {
+	f := w.Fn(pkgFilter, "FilterTree.GetFlow")
+	if f == nil {
+		r.Undec(rule, "FilterTree.GetFlow", token.NoPos, "function not found")
+		return
+	}
+	hs := loopHeadersOf(f)
+	ok, n := len(hs) >= 1, 0
+	var bad []string
+	for _, alt := range ReturnAlts(f, 1) {
+		ph, isPhi := peel(alt.Val).(*ssa.Phi)
+		if !isPhi {
+			continue
+		}
+		n++
+		seen := map[*ssa.Phi]bool{}
+		var walk func(p *ssa.Phi)
+		walk = func(p *ssa.Phi) {
+			if seen[p] {
+				return
+			}
+			seen[p] = true
+			for _, e := range p.Edges {
+				switch x := e.(type) {
+				case *ssa.Phi:
+					walk(x)
+				case *ssa.Const:
+				default:
+					ok = false
+					bad = append(bad, Path(e))
+				}
+			}
+		}
+		walk(ph)
+	}
+	r.Check(ok && n >= 1, rule, "FilterTree.GetFlow/found-once-found", f.Pos(), "`found` only ever goes from false to true while the nodes are walked (a later node without a valid flow does not take it back; other values flowing in: %v)", bad)
+}
+
+// hrAddConnections: start keys are merged into the start list, end keys into the end list.
+func hrAddConnections(w *World, r *Report, rule string) {
+	f := w.Fn("lunar/engine/streams/resources/types", "ResourceProcessorLocation.AddConnections")
+	if f == nil {
+		r.Undec(rule, "AddConnections", token.NoPos, "function not found")
+		return
+	}
+	src := func(v ssa.Value) string {
+		s, e := false, false
+		Derives(v, func(x ssa.Value) bool {
+			if isCallTo0(x, "ResourceProcessorLocationI).GetStart") {
+				s = true
+			}
+			if isCallTo0(x, "ResourceProcessorLocationI).GetEnd") {
+				e = true
+			}
+			return false
+		})
+		switch {
+		case s && !e:
+			return "Start"
+		case e && !s:
+			return "End"
+		case s && e:
+			return "both"
+		}
+		return ""
+	}
+	fed := map[string]map[string]bool{"Start": {}, "End": {}}
+	for _, c := range CallsIn(f, false, "ResourceProcessorLocation).AddToStart") {
+		fed["Start"][src(margs(c)[0])] = true
+	}
+	for _, c := range CallsIn(f, false, "ResourceProcessorLocation).AddToEnd") {
+		fed["End"][src(margs(c)[0])] = true
+	}
+	for _, fld := range []string{"Start", "End"} {
+		for _, st := range fieldStores(f, fld) {
+			if s := src(st.Val); s != "" {
+				fed[fld][s] = true
+			}
+		}
+	}
+	ok := len(fed["Start"]) == 1 && fed["Start"]["Start"] && len(fed["End"]) == 1 && fed["End"]["End"]
+	r.Check(ok, rule, "AddConnections/start-to-start-end-to-end", f.Pos(), "the other location's start keys go to Start and its end keys to End (Start fed by %v, End fed by %v)", keysOf(fed["Start"]), keysOf(fed["End"]))
+}
+
+// hrParsedURLAfterInit: the parsed URL of a request is used only after init() succeeded.
+func hrParsedURLAfterInit(w *World, r *Report, rule string) {
+	n := 0
+	for _, name := range []string{"OnRequest.DoesQueryParamExist", "OnRequest.DoesQueryParamValueMatch"} {
+		f := w.Fn(pkgStreamTypes, name)
+		if f == nil {
+			r.Undec(rule, name, token.NoPos, "function not found")
+			continue
+		}
+		Instrs(f, func(in ssa.Instruction) {
+			c, isC := in.(ssa.CallInstruction)
+			if !isC || !strings.HasPrefix(calleeID(c), "(*net/url.URL).") || len(c.Common().Args) == 0 {
+				return
+			}
+			if !strings.HasSuffix(Path(c.Common().Args[0]), ".ParsedURL") {
+				return
+			}
+			n++
+			ok := false
+			for _, cd := range append(CondsOf(c.Block()), siteConds(c.Block(), 3)...) {
+				rel, isRel := NormCond(cd)
+				if isRel && rel.Op == "==" && isNilConst(rel.R) && isCallTo0(rel.L, "OnRequest).init") {
+					ok = true
+				}
+				if cd.Pol && isCallTo0(cd.V, "OnRequest).DoesQueryParamExist") {
+					ok = true // which itself returns true only after init() succeeded
+				}
+			}
+			r.Check(ok, rule, shortFn(fnID(outermost(f)))+"/parsed-url-only-after-init", posOf(c), "req.ParsedURL is dereferenced only where init() returned nil (a URL that does not parse leaves it nil)")
+		})
+	}
+	r.Check(n >= 2, rule, "OnRequest/parsed-url-uses", token.NoPos, "%d uses of req.ParsedURL inspected in the query-parameter accessors", n)
+}
+
+// hrEdgeEqualNilGuards: two edges are compared by target node only when both have one.
+func hrEdgeEqualNilGuards(w *World, r *Report, rule string) {
+	f := w.Fn(pkgFlow, "ConnectionEdge.equal")
+	if f == nil {
+		r.Undec(rule, "ConnectionEdge.equal", token.NoPos, "function not found")
+		return
+	}
+	cs := CallsIn(f, false, "FlowGraphNode).equal")
+	ok := len(cs) >= 1
+	for _, c := range cs {
+		rels := Rels(c.Block())
+		for _, suf := range []string{"ce.node", "other.node"} {
+			op, _ := FindRel(rels, func(v ssa.Value) bool { return strings.HasSuffix(Path(v), suf) }, isNilConst)
+			if op != "!=" {
+				ok = false
+			}
+		}
+	}
+	r.Check(ok, rule, "ConnectionEdge.equal/nodes-compared-only-when-both-present", f.Pos(), "node.equal(other.node) runs under ce.node != nil and other.node != nil (an edge to the stream end has no node)")
+}
+
+// hrListAssertionsGuarded: a list parameter's elements are asserted to T only after isListOf[T] held for the list.
+func hrListAssertionsGuarded(w *World, r *Report, rule string) {
+	f := w.Fn("lunar/engine/streams/public-types", "NewParamValue")
+	if f == nil {
+		r.Undec(rule, "NewParamValue", token.NoPos, "function not found")
+		return
+	}
+	n := 0
+	Instrs(f, func(in ssa.Instruction) {
+		ta, isTA := in.(*ssa.TypeAssert)
+		if !isTA || ta.CommaOk {
+			return
+		}
+		if _, isIface := ta.AssertedType.Underlying().(*types.Interface); isIface {
+			return
+		}
+		if _, isBasic := ta.AssertedType.Underlying().(*types.Basic); !isBasic {
+			return
+		}
+		n++
+		ok := false
+		for _, cd := range CondsOf(ta.Block()) {
+			c, isC := peel(cd.V).(*ssa.Call)
+			if !isC || !cd.Pol {
+				continue
+			}
+			callee := c.Call.StaticCallee()
+			if callee == nil || !(strings.HasPrefix(callee.Name(), "isListOf") || strings.HasPrefix(callee.Name(), "isMapOf")) {
+				continue
+			}
+			if targs := callee.TypeArgs(); len(targs) == 1 && types.Identical(targs[0], ta.AssertedType) {
+				ok = true
+			}
+		}
+		r.Check(ok, rule, "NewParamValue/element-assertion-after-its-list-check/"+ta.AssertedType.String(), posOf(ta), "v.(%s) on an element runs only where isListOf/isMapOf[%s](val) held (a collection of another element type must not reach it)", ta.AssertedType, ta.AssertedType)
+	})
+	r.Check(n >= 1, rule, "NewParamValue/element-assertions", f.Pos(), "%d unchecked element assertions inspected", n)
+}
+
+// hrQueueSizeParams: each size limit is read from the parameter of its own name.
+func hrQueueSizeParams(w *World, r *Report, rule string) {
+	f := w.Fn(pkgQProc, "queueProcessor.init")
+	if f == nil {
+		r.Undec(rule, "queueProcessor.init", token.NoPos, "function not found")
+		return
+	}
+	want := map[string]string{"maxQueueSize": "queue_size", "maxRedisQueueSize": "redis_queue_size"}
+	got := map[string]map[string]bool{}
+	note := func(dst ssa.Value, name ssa.Value) {
+		fa, isFA := peel(unhelp(dst)).(*ssa.FieldAddr)
+		if !isFA {
+			return
+		}
+		fld := fieldName(fa.X.Type(), fa.Field)
+		if _, isW := want[fld]; !isW {
+			return
+		}
+		if got[fld] == nil {
+			got[fld] = map[string]bool{}
+		}
+		if s, isS := constString(name); isS {
+			got[fld][s] = true
+		} else {
+			got[fld]["?"+Path(name)] = true
+		}
+	}
+	// direct form: ExtractInt64Param(params, name, &p.field)
+	for _, c := range CallsIn(f, false, "utils.ExtractInt64Param") {
+		a := c.Common().Args
+		note(a[2], a[1])
+	}
+	// table form: {name, &p.field} rows walked by a loop
+	Instrs(f, func(in ssa.Instruction) {
+		st, isSt := in.(*ssa.Store)
+		if !isSt {
+			return
+		}
+		if _, isFA := st.Val.(*ssa.FieldAddr); !isFA {
+			return
+		}
+		dstSlot, isSlot := st.Addr.(*ssa.FieldAddr) // row.dst = &p.field
+		if !isSlot {
+			return
+		}
+		for _, ref := range *dstSlot.X.Referrers() {
+			sib, isSib := ref.(*ssa.FieldAddr)
+			if !isSib || sib.Field == dstSlot.Field {
+				continue
+			}
+			for _, r2 := range *sib.Referrers() {
+				if s2, isS2 := r2.(*ssa.Store); isS2 && s2.Addr == ssa.Value(sib) {
+					note(st.Val, s2.Val)
+				}
+			}
+		}
+	})
+	for fld, name := range want {
+		ok := len(got[fld]) == 1 && got[fld][name]
+		r.Check(ok, rule, "queueProcessor.init/"+fld+"-from-its-own-parameter", f.Pos(), "%s is read from parameter %q (found %v)", fld, name, keysOf(got[fld]))
+	}
+}
+
+// hrEnvOfItsOwn: the timeout the TTL guard compares with is read from its own environment variable.
+func hrEnvOfItsOwn(w *World, r *Report, rule string) {
+	for fn, cn := range map[string]string{"GetSpoeProcessingTimeout": "spoeProcessingTimeoutSecEnvVar", "GetLuaRetryRequestTimeout": "LuaRetryRequestTimeoutSecEnvVar"} {
+		f := w.Fn("lunar/engine/utils/environment", fn)
+		if f == nil {
+			r.Undec(rule, fn, token.NoPos, "function not found")
+			continue
+		}
+		want := w.constOf("lunar/engine/utils/environment", cn)
+		names := map[string]bool{}
+		Instrs(f, func(in ssa.Instruction) {
+			if c, isC := in.(ssa.CallInstruction); isC && isCallTo(c, "os.Getenv", "os.LookupEnv") {
+				if s, isS := constString(c.Common().Args[0]); isS {
+					names[s] = true
+				} else {
+					names["?"+Path(c.Common().Args[0])] = true
+				}
+			}
+		})
+		ok := want != nil && len(names) == 1 && names[constant.StringVal(want)]
+		r.Check(ok, rule, "environment."+fn+"/reads-its-own-variable", f.Pos(), "%s reads exactly %s (found %v)", fn, cn, keysOf(names))
+	}
+}
+
+// hrResponseHeadersCopied: the action's header edits are written into the response, not the other way round.
+func hrResponseHeadersCopied(w *World, r *Report, rule string) {
+	f := w.Fn(pkgActions, "ModifyResponseAction.EnsureResponseIsUpdated")
+	if f == nil {
+		r.Undec(rule, "EnsureResponseIsUpdated", token.NoPos, "function not found")
+		return
+	}
+	isDst := func(v ssa.Value) bool { return strings.HasSuffix(Path(v), "onResponse.Headers") }
+	isSrc := func(v ssa.Value) bool { return strings.HasSuffix(Path(v), "lunarAction.HeadersToSet") }
+	n, ok := 0, true
+	Instrs(f, func(in ssa.Instruction) {
+		switch x := in.(type) {
+		case *ssa.MapUpdate:
+			n++
+			if !isDst(x.Map) || !Derives(x.Value, func(v ssa.Value) bool { return isSrc(v) }) {
+				ok = false
+			}
+		case ssa.CallInstruction:
+			if isCallTo(x, "maps.Copy") {
+				n++
+				a := x.Common().Args
+				if !isDst(a[0]) || !isSrc(a[1]) {
+					ok = false
+				}
+			}
+		}
+	})
+	r.Check(ok && n == 1, rule, "ModifyResponseAction.EnsureResponseIsUpdated/headers-into-the-response", f.Pos(), "every entry of HeadersToSet is written into onResponse.Headers (destination and source not exchanged)")
+}
+
+// hrRebuiltEarlyResponse: the early response rebuilt after the response remedies is the modified response.
+func hrRebuiltEarlyResponse(w *World, r *Report, rule string) {
+	f := w.Fn(pkgRunner, "obtainModifiedEarlyResponse")
+	if f == nil {
+		r.Undec(rule, "obtainModifiedEarlyResponse", token.NoPos, "function not found")
+		return
+	}
+	n := 0
+	Instrs(f, func(in ssa.Instruction) {
+		a, isA := in.(*ssa.Alloc)
+		if !isA || structOf(a.Type()) != "EarlyResponseAction" {
+			return
+		}
+		n++
+		for _, fld := range []string{"Status", "Headers", "Body"} {
+			v := singleFieldStoreByName(a, fld)
+			ok := false
+			if u, isU := v.(*ssa.UnOp); isU && u.Op == token.MUL {
+				if fa, isFA := u.X.(*ssa.FieldAddr); isFA {
+					_, tn := namedOf(fa.X.Type())
+					ok = tn == "OnResponse" && fieldName(fa.X.Type(), fa.Field) == fld
+				}
+			}
+			r.Check(ok, rule, "obtainModifiedEarlyResponse/rebuilt-from-the-response-message/"+fld, a.Pos(), "EarlyResponseAction.%s is read from the same field of the OnResponse message handed to the response remedies (not from the request)", fld)
+		}
+	})
+	r.Check(n == 1, rule, "obtainModifiedEarlyResponse/rebuilt-action", f.Pos(), "one rebuilt EarlyResponseAction (%d found)", n)
+}
+
+// hrCleanAll: everything a payload can write is wiped.
+func hrCleanAll(w *World, r *Report, rule string) {
+	f := w.Fn(pkgConfig, "FileSystemOperation.CleanAll")
+	if f == nil {
+		r.Undec(rule, "CleanAll", token.NoPos, "function not found")
+		return
+	}
+	// form A: both tables are walked
+	walked := map[string]bool{}
+	for _, c := range CallsIn(f, false, "FileSystemOperation).cleanUpDirectory", "FileSystemOperation).cleanUpFile") {
+		a := margs(c)
+		p := Path(a[0])
+		for _, t := range []string{"directories", "files"} {
+			if strings.Contains(p, "fs."+t) {
+				for _, h := range loopHeadersOf(f) {
+					if loopHas(h, c.Block()) && len(loopBreaks(h)) == 0 {
+						walked[t] = true
+					}
+				}
+			}
+		}
+	}
+	if walked["directories"] && walked["files"] {
+		r.Hold(rule, "CleanAll/wipes-every-target", f.Pos(), 2, "every directory and every file of the operation's tables is cleaned (errors returned)")
+		return
+	}
+	// form B: every Clean* wrapper is called
+	named := w.Named(pkgConfig, "FileSystemOperation")
+	var miss []string
+	n := 0
+	if named != nil {
+		for i := 0; i < named.NumMethods(); i++ {
+			m := named.Method(i)
+			if !strings.HasPrefix(m.Name(), "Clean") || m.Name() == "CleanAll" {
+				continue
+			}
+			n++
+			if len(CallsIn(f, false, "FileSystemOperation)."+m.Name())) == 0 {
+				miss = append(miss, m.Name())
+			}
+		}
+	}
+	r.Check(n >= 4 && len(miss) == 0, rule, "CleanAll/wipes-every-target", f.Pos(), "either both tables are walked or every one of the %d Clean* operations is called (not called: %v)", n, miss)
+}
+
+// hrAllLocksReleased: every function that takes a lock releases it on every way out.
+func hrAllLocksReleased(w *World, r *Report, la *LockAn, rule string, pkgPrefixes ...string) {
+	n := 0
+	for _, f := range w.lunarFns {
+		if f.Origin() != nil {
+			continue
+		}
+		in := false
+		for _, p := range pkgPrefixes {
+			if strings.HasPrefix(fnPkgPath(f), p) {
+				in = true
+			}
+		}
+		if !in || strings.HasSuffix(w.Fset.Position(f.Pos()).Filename, "_test.go") {
+			continue
+		}
+		has := false
+		Instrs(f, func(ins ssa.Instruction) {
+			if op, _ := lockOp(ins); op == "Lock" || op == "RLock" {
+				has = true
+			}
+		})
+		if !has {
+			continue
+		}
+		n++
+		var keys []string
+		for _, l := range la.Leaks(f) {
+			keys = append(keys, l.Key+" at "+w.Pos(l.Ret.Pos()))
+		}
+		r.Check(len(keys) == 0, rule, "lock-released-on-every-exit/"+shortFn(fnID(f)), f.Pos(), "every lock taken in the function is released (or its release deferred) on every return (still held: %v)", keys)
+	}
+	r.Check(n >= 1, rule, "lock-released-on-every-exit/instances", token.NoPos, "%d lock-taking functions inspected in %v", n, pkgPrefixes)
+}
+
+// hrRemedyChainWalksAll: the remedy (diagnosis) chain of a request is built from every enabled entry.
+func hrRemedyChainWalksAll(w *World, r *Report, rule string) {
+	for _, name := range []string{"appendEndpointRemedies", "appendGlobalRemedies", "appendEndpointDiagnoses", "appendGlobalDiagnoses"} {
+		f := w.Fn(pkgRunner, name)
+		if f == nil {
+			continue
+		}
+		hs := loopHeadersOf(f)
+		ok := len(hs) >= 1
+		var ex []string
+		for _, h := range hs {
+			ex = append(ex, loopExits(h, false)...)
+		}
+		ok = ok && len(ex) == 0
+		// the pointer kept for an entry is into the slice that is being walked
+		Instrs(f, func(in ssa.Instruction) {
+			ia, isIA := in.(*ssa.IndexAddr)
+			if !isIA {
+				return
+			}
+			for _, b := range f.Blocks {
+				for _, in2 := range b.Instrs {
+					if ib, isIB := in2.(*ssa.IndexAddr); isIB && ib != ia && ib.Index == ia.Index {
+						if _, isParam := peel(ib.X).(*ssa.Parameter); isParam || true {
+							if Path(ib.X) != Path(ia.X) && strings.Contains(ia.Type().String(), "Remedy") && strings.Contains(ib.Type().String(), "Remedy") {
+								ok = false
+								ex = append(ex, "index of "+Path(ib.X)+" used on "+Path(ia.X))
+							}
+						}
+					}
+				}
+			}
+		})
+		r.Check(ok, rule, name+"/every-enabled-entry-considered", f.Pos(), "the loop over the configured entries is left only when they are exhausted, and an entry's pointer indexes the slice being walked (%v)", ex)
+	}
+}
+
+// hrTooManyRequestsStatus: the rejection carries the configured status.
+func hrTooManyRequestsStatus(w *World, r *Report, rule string) {
+	f := w.Fn(pkgRemedies, "plainTextTooManyRequestsAction")
+	if f == nil {
+		r.Undec(rule, "plainTextTooManyRequestsAction", token.NoPos, "function not found")
+		return
+	}
+	ok, n := true, 0
+	for _, alt := range ReturnAlts(f, 0) {
+		n++
+		if v := litField(alt.Val, "Status"); v == nil || Path(v) != "param:statusCode" {
+			ok = false
+		}
+	}
+	r.Check(ok && n == 1, rule, "plainTextTooManyRequestsAction/status-is-the-argument", f.Pos(), "the rejection's Status is the statusCode it was asked for (response_status_code of the remedy)")
+}
+
+// hrTotalCountsAllGroups: the queue's occupancy is the sum over every priority group.
+func hrTotalCountsAllGroups(w *World, r *Report, rule string) {
+	f := w.Fn(pkgQueue, "DelayedPriorityQueue.totalQueueCount")
+	if f == nil {
+		r.Undec(rule, "totalQueueCount", token.NoPos, "function not found")
+		return
+	}
+	hs := loopHeadersOf(f)
+	var ex []string
+	for _, h := range hs {
+		ex = append(ex, loopExits(h, false)...)
+	}
+	r.Check(len(hs) == 1 && len(ex) == 0, rule, "totalQueueCount/sums-every-group", f.Pos(), "the loop over requestCounts is left only when every group was visited (early exits: %v)", ex)
 }
